@@ -71,6 +71,7 @@ func vwDebugBounds(depth, devs int) (int, int) {
 // vwRun explores one (depth, deviations) box of the world.
 func vwRun(r *ev.R, name string, o vwOpts, st *vwStats, depth, devs int, note string) mc.Result {
 	depth, devs = vwDebugBounds(depth, devs)
+	o.noPrune = os.Getenv("VERIF_DEBUG_NOPRUNE") == "1"
 	return mc.Run(r, mc.System{
 		Name: name, New: func() mc.Instance { return newVW(o, st) },
 		MaxDepth: depth, MaxDeviations: devs, Bounds: vwBounds(o), Note: note,
